@@ -33,6 +33,7 @@ inductive Step
   | recurse (name : Str)
   | done (r : Str)
   | indexError
+  deriving DecidableEq, Repr
 
 def safeNameStep (e : Env) (u : UEnv) (cv : Conv) (name : Str) : Step :=
   if name.isEmpty then .recurse cv.pfx
